@@ -36,8 +36,11 @@ def seg(rng, cls, ivals, fvals):
     if cls == "int":
         sp, c = int_spec(rng)
         v = rng.randint(33, 126) if c == "c" else rng.choice(ivals)
+        if c != "c" and rng.random() < 0.12: return "C%s,B,%d" % (h(sp), rng.randint(-500, 500))      # a user type with C_Int AND C_Float instances
         return "C%s,I,%d" % (h(sp), v)
-    if cls == "flt": return "C%s,F,%016x" % (h(float_spec(rng)), rng.choice(fvals))
+    if cls == "flt":
+        if rng.random() < 0.12: return "C%s,B,%d" % (h(float_spec(rng)), rng.randint(-500, 500))
+        return "C%s,F,%016x" % (h(float_spec(rng)), rng.choice(fvals))
     if cls == "str":
         sp = "%" + rng.choice(["", "-"]) + rng.choice(["", "3", "10"]) + rng.choice(["", ".2", ".0"]) + "s"
         return "C%s,S,%s" % (h(sp), h(rng.choice(STRS)))
@@ -151,6 +154,9 @@ def round_execs(rng, quick):
     strs += [bytes(rng.randint(1, 255) for _ in range(rng.randint(0, 12))) for _ in range(200 if quick else 2000)]
     for n in (list(range(13, 140)) + [255, 256, 257, 511, 512, 513, 1023, 1024, 1025] + ([] if quick else list(range(140, 600)) + [4095, 4096, 4097])):
         strs.append(bytes(rng.choice(b"abc \\\"\n") for _ in range(n)))          # every length: readers with fixed buffers
+    for n in (511, 512, 513, 1023, 1024, 1025, 2047, 2048, 2049, 3000, 4097):
+        strs.append(bytes(rng.choice(b"abcdefghijklmnopqrstuvwxyz ") for _ in range(n)))        # long runs WITHOUT any escaped character
+        strs.append(bytes(rng.choice(b"abcdefghijklmnopqrstuvwxyz ") for _ in range(n)) + b"\n" + bytes(rng.choice(b"xyz") for _ in range(n)))
     # every string of length <= 2 (thorough: <= 3) over the characters the escape layer treats specially and their neighbours
     # (the Codec model is exhaustive over the same classes): combinations matter, e.g. "??", "\\n", "\\" + digit
     alpha = b"\a\b\f\n\r\t\v\\?'\"abfnrtvx0 7\x80%"
